@@ -102,17 +102,19 @@ def qb_obs(q):
 def qbuilder_part(c, quick, rnd):
     """histories of queries on ONE builder: every history of QBuilder.tla, replayed on a TigaPropertyBuilder; the last query's result must be the one it
     gives on a builder that has seen only the strategy declarations in force"""
-    consts = "CONSTANTS\n  MaxQueries = %d\n  ResetImit = TRUE\n  ResetOnFail = TRUE\n  ClearDecls = TRUE\n  DeclNeedsProperty = TRUE\n  FramesRestored = %%s\nINIT Init\nNEXT Next\nVIEW View\n" % (3 if quick else 4)
+    consts = "CONSTANTS\n  MaxQueries = %d\n  ResetImit = TRUE\n  ResetOnFail = TRUE\n  ClearDecls = TRUE\n  DeclNeedsProperty = TRUE\n  FramesRestored = %%s\nINIT Init\nNEXT Next\n%%s" % (3 if quick else 4)
     # the design: with every reset in place the three invariants hold on every history
     cfg = os.path.join(c.run_dir, "QBuilder.cfg")
-    open(cfg, "w").write(consts % "TRUE" + "INVARIANTS IndependentOfOtherQueries NoDangling DeclsAreDeclarations\nCHECK_DEADLOCK FALSE\n")
+    open(cfg, "w").write(consts % ("TRUE", "VIEW View\n") + "INVARIANTS IndependentOfOtherQueries NoDangling DeclsAreDeclarations\nCHECK_DEADLOCK FALSE\n")
     mc = vf.run_tlc("QBuilder", cfg, c.run_dir, timeout=1500, keep_out=False)
     c.add_tlc("QBuilder", mc, "all histories of queries on one builder object; IndependentOfOtherQueries, NoDangling and DeclsAreDeclarations on every state")
     if mc.violated:
         raise vf.MachineryError("QBuilder.tla: %s is violated with every reset in place" % mc.violated)
     # the code as it is (the scope stack is not restored): the histories that are replayed, and what the model expects of each
     cfg = os.path.join(c.run_dir, "QBuilder_code.cfg")
-    open(cfg, "w").write(consts % "FALSE" + "INVARIANTS EmitHist\nCHECK_DEADLOCK FALSE\n")
+    # no VIEW here: every HISTORY is a state of its own and is replayed - one representative per abstract state would assume what the replay is to establish,
+    # that the implementation's state is a function of the model's
+    open(cfg, "w").write(consts % ("FALSE", "") + "INVARIANTS EmitHist\nCHECK_DEADLOCK FALSE\n")
     mc = vf.run_tlc("QBuilder", cfg, c.run_dir, timeout=1500, keep_out=False)
     c.add_tlc("QBuilder_code", mc, "the same with the constants of the code (FramesRestored = FALSE): every history, with the result the model expects and whether it depends on earlier queries")
     hists = [e for e in mc.emitted if e["h"]]
@@ -200,7 +202,7 @@ def run(tier):
     vf.build_lib("plain")
     rnd = random.Random(c.seed)
     cfg = os.path.join(c.run_dir, "Tracker.cfg")
-    open(cfg, "w").write("CONSTANTS\n  M = 64\n  MaxCalls = %d\n  LlocReset = TRUE\n  TypesReset = TRUE\n  ResetBeforeReport = TRUE\n  ScalarPerBuilder = TRUE\nINIT Init\nNEXT Next\nVIEW View\nINVARIANTS EmitHist\nCHECK_DEADLOCK FALSE\n" % (3 if quick else 4))
+    open(cfg, "w").write("CONSTANTS\n  M = 64\n  MaxCalls = %d\n  LlocReset = TRUE\n  TypesReset = TRUE\n  ResetBeforeReport = TRUE\n  ScalarPerBuilder = TRUE\nINIT Init\nNEXT Next\nINVARIANTS EmitHist\nCHECK_DEADLOCK FALSE\n" % (3 if quick else 4))
     mc = vf.run_tlc("Tracker", cfg, c.run_dir, timeout=1500, keep_out=False)
     c.add_tlc("Tracker", mc, "all call histories; HistoryIndependent evaluated on every state (counter scaled to M = 64)")
     hists = [e for e in mc.emitted if e["h"]]
